@@ -23,11 +23,12 @@ type reqSite struct {
 	AckT  string // packet type name of the acknowledgement (empty: none awaited)
 
 	// derived
-	Reg     ssa.Instruction // registration instruction (MapUpdate or Store) or nil
-	RegChan ssa.Value       // registered channel (resolved)
-	RegKey  ssa.Value       // map key (nil for slot fields)
-	SigBase ssa.Value
-	Selects []*ssa.Select // blocking selects reachable from the write
+	Reg          ssa.Instruction // registration instruction (MapUpdate or Store) or nil
+	RegChan      ssa.Value       // registered channel (resolved)
+	RegKey       ssa.Value       // map key (nil for slot fields)
+	SigBase      ssa.Value
+	RegViaHelper *ssa.Function // registration performed by this helper (which takes the signaller's lock itself)
+	Selects      []*ssa.Select // blocking selects reachable from the write
 }
 
 // MQTT 3.1.1 request -> acknowledgement table (spec sections 3.1-3.12), by packet struct type.
@@ -246,18 +247,8 @@ func (c *Ctx) requestSites() ([]*reqSite, []string) {
 				s.Kind = "publish"
 				// message = Message field of the packet literal
 				if pcall != nil && len(pcall.Call.Args) == 1 {
-					if a, ok := c.Resolve(pcall.Call.Args[0]).(*ssa.Alloc); ok {
-						for _, u := range *a.Referrers() {
-							if fa, ok := u.(*ssa.FieldAddr); ok {
-								if _, fld := fieldOf(fa); fld != nil && fld.Name() == "Message" {
-									for _, uu := range *fa.Referrers() {
-										if st, ok := uu.(*ssa.Store); ok {
-											s.Msg = c.Resolve(st.Val)
-										}
-									}
-								}
-							}
-						}
+					if mv := c.packetField(pcall.Call.Args[0], "Message"); mv != nil {
+						s.Msg = c.Resolve(mv)
 					}
 				}
 				if s.Msg == nil {
@@ -303,11 +294,9 @@ func (c *Ctx) requestSites() ([]*reqSite, []string) {
 			if s.Kind == "pubrel" {
 				// message: base of the load stored into pktPubRel.ID
 				if pcall != nil && len(pcall.Call.Args) == 1 {
-					if a, ok := c.Resolve(pcall.Call.Args[0]).(*ssa.Alloc); ok {
-						if idv := c.storedField(a, "ID"); idv != nil {
-							if b, ok := isFieldLoad(idv, "Message", "ID"); ok {
-								s.Msg = c.Resolve(b)
-							}
+					if idv := c.packetField(pcall.Call.Args[0], "ID"); idv != nil {
+						if b, ok := isFieldLoad(c.Resolve(idv), "Message", "ID"); ok {
+							s.Msg = c.Resolve(b)
 						}
 					}
 				}
@@ -394,6 +383,37 @@ func (c *Ctx) fillSite(s *reqSite) {
 			}
 		})
 	}
+	if s.AckT != "" && s.Reg == nil {
+		// registration through a helper method of the signaller: sig.registerX(key, ch)
+		eachInstr(f, func(in ssa.Instruction) {
+			call, ok := in.(*ssa.Call)
+			if !ok {
+				return
+			}
+			g := c.StaticCalleeOf(&call.Call)
+			if g == nil || g.Pkg != c.Pkg {
+				return
+			}
+			sum := c.regSummary(g)
+			if sum == nil || sum.AckT != s.AckT {
+				return
+			}
+			if _, ok := CanReach(f, nil, func(i ssa.Instruction) bool { return i == in }, s.Q); !ok {
+				return
+			}
+			s.Reg = in
+			s.RegViaHelper = g
+			s.SigBase = c.Resolve(call.Call.Args[sum.SigIdx])
+			if sum.ChanIdx >= 0 {
+				s.RegChan = c.ResolveQ(f, call.Call.Args[sum.ChanIdx], s.Q)
+			} else {
+				s.RegChan = call
+			}
+			if sum.KeyIdx >= 0 {
+				s.RegKey = call.Call.Args[sum.KeyIdx]
+			}
+		})
+	}
 	reach := ReachableInstrs(f, s.Write, s.Q)
 	eachInstr(f, func(in ssa.Instruction) {
 		if sel, ok := in.(*ssa.Select); ok && sel.Blocking && reach[in] {
@@ -420,4 +440,161 @@ func (c *Ctx) clientOperand(v ssa.Value) ssa.Value {
 		}
 	}
 	return c.Resolve(v)
+}
+
+// regSummary: g registers a waiter: on every path it stores parameter ChanIdx into a signaller field (slot, or map under key
+// parameter KeyIdx) of the signaller given as parameter SigIdx, inside that signaller's exclusive lock.
+type regSum struct {
+	AckT                    string
+	SigIdx, KeyIdx, ChanIdx int // ChanIdx == -1: the helper makes a fresh buffered channel itself and returns it
+}
+
+func (c *Ctx) regSummary(g *ssa.Function) *regSum {
+	if g.Blocks == nil || len(g.Params) < 2 {
+		return nil
+	}
+	paramIdx := func(v ssa.Value) int {
+		v = c.Resolve(v)
+		for i, p := range g.Params {
+			if v == ssa.Value(p) {
+				return i
+			}
+		}
+		return -1
+	}
+	var out *regSum
+	eachInstr(g, func(in ssa.Instruction) {
+		var sigBase ssa.Value
+		var key, val ssa.Value
+		var fld *types.Var
+		switch x := in.(type) {
+		case *ssa.MapUpdate:
+			ld, ok := x.Map.(*ssa.UnOp)
+			if !ok {
+				return
+			}
+			fa, ok := ld.X.(*ssa.FieldAddr)
+			if !ok || typeName(fa.X.Type()) != "signaller" {
+				return
+			}
+			_, fld = fieldOf(fa)
+			sigBase, key, val = fa.X, x.Key, x.Value
+		case *ssa.Store:
+			fa, ok := x.Addr.(*ssa.FieldAddr)
+			if !ok || typeName(fa.X.Type()) != "signaller" {
+				return
+			}
+			_, fld = fieldOf(fa)
+			if chanElemName(fld.Type()) == "" {
+				return
+			}
+			sigBase, val = fa.X, x.Val
+		default:
+			return
+		}
+		si, ci := paramIdx(sigBase), paramIdx(val)
+		if ci < 0 {
+			// fresh channel made here with capacity >= 1 and returned on every path
+			if mk, ok := c.Resolve(val).(*ssa.MakeChan); ok && mk.Parent() == g {
+				if n, ok := constInt(mk.Size); ok && n >= 1 {
+					allRet := true
+					for _, ret := range returnsOf(g) {
+						if len(ret.Results) != 1 || c.Resolve(c.RetVal(ret, 0)) != ssa.Value(mk) {
+							allRet = false
+						}
+					}
+					if allRet {
+						ci = -2
+					}
+				}
+			}
+		}
+		ki := -1
+		if key != nil {
+			ki = paramIdx(key)
+			if ki < 0 {
+				return
+			}
+		}
+		if si < 0 || ci == -1 {
+			return
+		}
+		if ci == -2 {
+			ci = -1
+		}
+		ack := ""
+		if mt, ok := fld.Type().Underlying().(*types.Map); ok {
+			ack = chanElemName(mt.Elem())
+		} else {
+			ack = chanElemName(fld.Type())
+		}
+		if ack == "" {
+			return
+		}
+		// on every path, under the signaller's exclusive lock
+		if _, skip := CanReach(g, nil, realExit, PathQ{BlockInstr: func(i ssa.Instruction) bool { return i == in }}); skip {
+			return
+		}
+		muF := c.structField("signaller", "mu")
+		if muF == nil || !c.heldAt(g, in, g.Params[si], muF, "w") {
+			return
+		}
+		out = &regSum{AckT: ack, SigIdx: si, KeyIdx: ki, ChanIdx: ci}
+	})
+	return out
+}
+
+// packetLiteral: v is a packet literal (&pktX{...}) or the result of a helper that builds and returns one; returns the
+// literal's Alloc and a mapping from the helper's parameters to the call's arguments.
+func (c *Ctx) packetLiteral(v ssa.Value) (*ssa.Alloc, map[ssa.Value]ssa.Value) {
+	r := c.Resolve(v)
+	if al, ok := r.(*ssa.Alloc); ok {
+		return al, nil
+	}
+	call, ok := r.(*ssa.Call)
+	if !ok {
+		return nil, nil
+	}
+	g := c.StaticCalleeOf(&call.Call)
+	if g == nil || g.Pkg != c.Pkg || g.Blocks == nil {
+		return nil, nil
+	}
+	var lit *ssa.Alloc
+	for _, ret := range returnsOf(g) {
+		if len(ret.Results) != 1 {
+			return nil, nil
+		}
+		al, ok := c.Resolve(ret.Results[0]).(*ssa.Alloc)
+		if !ok || (lit != nil && lit != al) {
+			return nil, nil
+		}
+		lit = al
+	}
+	if lit == nil {
+		return nil, nil
+	}
+	m := map[ssa.Value]ssa.Value{}
+	for i, p := range g.Params {
+		if i < len(call.Call.Args) {
+			m[p] = call.Call.Args[i]
+		}
+	}
+	return lit, m
+}
+
+// packetField: the value stored into field `name` of the packet v denotes, expressed in the caller's values where the
+// packet is built by a helper from its parameters.
+func (c *Ctx) packetField(v ssa.Value, name string) ssa.Value {
+	lit, m := c.packetLiteral(v)
+	if lit == nil {
+		return nil
+	}
+	fv := c.storedField(lit, name)
+	if fv == nil || m == nil {
+		return fv
+	}
+	if a, ok := m[c.Resolve(fv)]; ok {
+		return a
+	}
+	return fv
 }
